@@ -11,9 +11,10 @@ import G9.Driver.Ufs
 import G9.Driver.Clnt
 import G9.Driver.Life
 import G9.Driver.FidLife
+import G9.Driver.BufPool
 open G9 G9.Driver
 
-def handlers : List (String → List String → Option String) := [wire, logger, srvseq, frames, ufs, clnt, life, fidlife]
+def handlers : List (String → List String → Option String) := [wire, logger, srvseq, frames, ufs, clnt, life, fidlife, bufsess]
 
 def answer (line : String) : String :=
   match (line.trimAscii.toString.splitOn " ").filter (· ≠ "") with
